@@ -29,6 +29,8 @@ from dataclasses import dataclass, field
 VERIF = "/verif"
 PY = f"{VERIF}/.venv/bin/python"
 GEN = f"{VERIF}/.gen"
+# replays and evidence of the registered checks live under /verif; evaluations of seeded changes (VERIF_REPO set by tools/) write elsewhere
+OUT = VERIF if not os.environ.get("VERIF_REPO") else os.environ.get("VERIF_OUT", "/tmp/verif_eval_out")
 NPROC = int(os.environ.get("VERIF_NPROC", "16"))
 
 
@@ -142,8 +144,8 @@ def _replay_ch(pid: str, ob: Ob, msg: str):
     """Re-run the harness function concretely (plain interpreter, no CrossHair, no plugin)
     on the counterexample's arguments.  Returns (reproduced, replay_path, detail)."""
     m = _CALL.search(msg)
-    os.makedirs(f"{VERIF}/replays/{pid}", exist_ok=True)
-    path = f"{VERIF}/replays/{pid}/{ob.name}.py"
+    os.makedirs(f"{OUT}/replays/{pid}", exist_ok=True)
+    path = f"{OUT}/replays/{pid}/{ob.name}.py"
     if not m:
         return False, path, "could not parse counterexample call from: " + msg
     call = m.group("call").strip()
@@ -265,8 +267,8 @@ def _run_smt(pid: str, ob: Ob):
             r["detail"] = "vacuous: no reachability witness"
     elif st == "violated":
         # the smt module has already replayed the model on the real code
-        os.makedirs(f"{VERIF}/replays/{pid}", exist_ok=True)
-        path = f"{VERIF}/replays/{pid}/{ob.name}.py"
+        os.makedirs(f"{OUT}/replays/{pid}", exist_ok=True)
+        path = f"{OUT}/replays/{pid}/{ob.name}.py"
         with open(path, "w") as f:
             f.write(res.get("replay_code") or f"# counterexample: {res.get('counterexample')!r}\n")
         r["replay"] = path
@@ -379,7 +381,7 @@ def run_check(pid: str, obligations: list[Ob], tier: str, *, level_text: str = "
 
 
 def _write_evidence(pid, tier, seed, results, wall, level_text, assumptions, rule, extra, st_info, known_ids, failed):
-    os.makedirs(f"{VERIF}/evidence", exist_ok=True)
+    os.makedirs(f"{OUT}/evidence", exist_ok=True)
     paths = sum(r["paths"] for r in results)
     queries = sum(r["queries"] for r in results)
     nontrivial = sum(1 for r in results if r.get("witness"))
@@ -422,10 +424,10 @@ def _write_evidence(pid, tier, seed, results, wall, level_text, assumptions, rul
         "wall_s": round(wall, 2),
         "violations": sum(1 for r in results if r["verdict"] == "violated" and not (r.get("known"))),
     }
-    tmp = f"{VERIF}/evidence/{pid}.json.tmp"
+    tmp = f"{OUT}/evidence/{pid}.json.tmp"
     with open(tmp, "w") as f:
         json.dump(ev, f, indent=1, default=str)
-    os.replace(tmp, f"{VERIF}/evidence/{pid}.json")
+    os.replace(tmp, f"{OUT}/evidence/{pid}.json")
 
 
 def tier_from_argv(argv=None):
